@@ -160,12 +160,13 @@ AvgPoolOp(x, q) == /\ "AvgPool" \in Ops /\ Room /\ Present(x)
                    /\ LET r == AvgPoolNumMI(obj[x], q) IN
                       /\ obj' = [obj EXCEPT ![x] = r]
                       /\ Step([op |-> "AvgPool", x |-> x, q |-> q, den |-> Pow(q, D), after |-> Snap(r)])
-ComponentOp(x, comp, T) == /\ "Component" \in Ops /\ Room /\ Present(x) /\ NLead(obj[x]) = 1
-                           /\ \A i \in 1..Len(obj[x].order) : obj[x].blks[i].lead[1] % T = 0
-                           /\ comp < SumSeq([i \in 1..Len(obj[x].order) |-> (obj[x].blks[i].lead[1] \div T) * Pow(D, obj[x].order[i][1])])
-                           /\ LET r == GetComponent(obj[x], comp, T) IN
+ComponentOp(x, c0, n, T) == /\ "Component" \in Ops /\ Room /\ Present(x) /\ NLead(obj[x]) \in {1, 2}
+                           /\ (NLead(obj[x]) = 2 => SameFirst(obj[x]))
+                           /\ \A i \in 1..Len(obj[x].order) : obj[x].blks[i].lead[NLead(obj[x])] % T = 0
+                           /\ c0 + n <= CompTotal(obj[x], T)
+                           /\ LET r == IF NLead(obj[x]) = 1 THEN GetComponents(obj[x], c0, n, T) ELSE BatchGetComponents(obj[x], c0, n, T) IN
                               /\ obj' = [obj EXCEPT ![x] = r]
-                              /\ Step([op |-> "Component", x |-> x, comp |-> comp, T |-> T, after |-> Snap(r)])
+                              /\ Step([op |-> "Component", x |-> x, comp |-> c0, n |-> n, T |-> T, batched |-> (NLead(obj[x]) = 2), after |-> Snap(r)])
 
 (* ---------------- losses (C18): a query, the store is unchanged ---------------- *)
 LossShapes(a, b) == /\ NLead(a) = 2 /\ NLead(b) = 2 /\ TypeSet(a) = TypeSet(b) /\ SameShapes(a, b)
@@ -180,7 +181,7 @@ LossOp(x, y, S) == /\ "Loss" \in Ops /\ Room /\ x # y /\ Present(x) /\ Present(y
 Next ==
   \/ \E x \in Names, y \in Names, S \in {1, 2} : LossOp(x, y, S)
   \/ \E x \in Names, q \in {2, 3} : AvgPoolOp(x, q)
-  \/ \E x \in Names, comp \in 0..11, T \in {1, 2} : ComponentOp(x, comp, T)
+  \/ \E x \in Names, c0 \in 0..7, n \in 1..3, T \in {1, 2} : ComponentOp(x, c0, n, T)
   \/ \E x \in Names, ord \in Orders : New(x, ord) \/ BuildAppend(x, ord)
   \/ \E x \in Names, y \in Names : CopyTo(x, y) \/ EqTest(x, y) \/ BinOp("Add", x, y) \/ BinOp("Sub", x, y)
   \/ \E x \in Names, how \in {"jit", "vmap", "flatten"} : RoundTrip(x, how)
